@@ -30,6 +30,10 @@ CONSTANTS
     Prices,      \* answers the pricing strategy may give
     Modes,       \* subset of {"fresh", "catchup"}
     Kinds,       \* subset of EvKinds the environment may deliver
+    ErrKinds,    \* shapes of a FAILED existing-bid lookup (1 plain client error, 2 context deadline exceeded,
+                 \* 3 gRPC status Unavailable, 4 gRPC status Unknown without the "bid not found" text)
+    NfKinds,     \* shapes of the "no such bid" answer (1 plain error with the text, 2 status NotFound + text,
+                 \* 3 status Unknown + text).  The code as built tells the two apart by the text only.
     TimeoutCfgs, \* subset of BOOLEAN: is a bid timeout configured (Config.BidTimeout > 0)
     Lax          \* TRUE (trace validation only): also allow the stimuli that cannot matter any more -- events,
                  \* shutdown, timer and answers of calls nobody waits for after the loop has exited
@@ -49,7 +53,9 @@ CallName(o) == CASE o = "qbid"    -> "Bid"
 \* the existing-bid query of a catch-up order answers with this provider's bid in one of its chain states
 \* (open; active = matched by a lease; lost; closed), or "not found", or fails
 FoundStates == {"open", "active", "lost", "closed"}
-Results(o) == CASE o = "qbid"   -> FoundStates \cup {"notfound", "err"}
+\* "err": the lookup failed and no bid of ours is on chain; "errbid": it failed while a bid of ours IS on chain
+LookupFailed == {"err", "errbid"}
+Results(o) == CASE o = "qbid"   -> FoundStates \cup {"notfound"} \cup LookupFailed
                 [] o = "group"  -> {"ok", "err"}
                 [] o = "should" -> {"yes", "no", "err"}
                 [] OTHER        -> {"ok", "err"}
@@ -93,7 +99,9 @@ OkEnds(lg, c) == {i \in DOMAIN lg : lg[i].c = c /\ lg[i].ph = "end" /\ lg[i].r =
 
 \* at most one bid is submitted for the order: the bid broadcasts of this monitor plus the bid this provider
 \* already has on the order (the existing-bid query of a catch-up order answered with one, in whatever state)
-FoundBids(lg) == {i \in DOMAIN lg : lg[i].c = "Bid" /\ lg[i].ph = "end" /\ lg[i].r \in FoundStates}
+\* ... or the chain holds one although the lookup failed ("errbid"); a failed lookup with no bid on chain ("err")
+\* followed by a bid is harmless and not counted
+FoundBids(lg) == {i \in DOMAIN lg : lg[i].c = "Bid" /\ lg[i].ph = "end" /\ lg[i].r \in FoundStates \cup {"errbid"}}
 AtMostOneBid(lg) == Cardinality(Starts(lg, "CreateBid")) + Cardinality(FoundBids(lg)) <= 1
 \* never above the order's maximum price
 BidBounded(lg, mx) == \A i \in Starts(lg, "CreateBid") : lg[i].price <= mx
@@ -200,15 +208,18 @@ CallStart(o) ==
 Complete(o, r, p) ==
     /\ EnvOK
     /\ r \in Results(o)
-    /\ IF o = "price" /\ r = "ok" THEN p \in Prices ELSE p = 0
+    /\ CASE o = "price" /\ r = "ok"          -> p \in Prices
+         [] o = "qbid" /\ r \in LookupFailed -> p \in ErrKinds
+         [] o = "qbid" /\ r = "notfound"     -> p \in NfKinds
+         [] OTHER                            -> p = 0
     /\ \/ op[o] = "run" /\ op' = [op EXCEPT ![o] = r]
        \/ o = "should" /\ op[o] = "aborted" /\ Lax /\ op' = op   \* the answer nobody waits for any more
     /\ (~Lax /\ pc # "loop") => DrainWait(o)           \* after the loop: only answers the exit path waits for matter
     /\ LET free == (pc # "loop" /\ o # "reserve") \/ (o = "should" /\ shut)   \* cancelled context / service shutting down
-       IN  nfail' = IF r = "err" /\ ~free THEN nfail + 1 ELSE nfail
+       IN  nfail' = IF r \in LookupFailed /\ ~free THEN nfail + 1 ELSE nfail
     /\ nfail' <= MaxFail
     /\ priceVal' = IF o = "price" /\ r = "ok" THEN p ELSE priceVal
-    /\ chainBid' = (chainBid \/ (o = "qbid" /\ r = "open") \/ (o = "bcast" /\ r = "ok"))
+    /\ chainBid' = (chainBid \/ (o = "qbid" /\ r \in {"open", "errbid"}) \/ (o = "bcast" /\ r = "ok"))
     /\ leased' = (leased \/ (o = "qbid" /\ r \in {"active", "lost"}))        \* the order's lease exists already
     /\ leaseOurs' = (leaseOurs \/ (o = "qbid" /\ r = "active"))              \* ... and it is ours
     /\ log' = IF Logged(o) THEN Append(log, Entry(CallName(o), "end", r, p)) ELSE log
@@ -265,7 +276,7 @@ CaseShutdown ==
 CaseQBid ==
     /\ pc = "loop" /\ Selectable("qbid")
     /\ op' = Use("qbid")
-    /\ IF op["qbid"] = "err"
+    /\ IF op["qbid"] \in LookupFailed           \* as built: an error without the "bid not found" text stops the monitor
        THEN pc' = "exit" /\ UNCHANGED <<parked, bidPlaced>>
        ELSE /\ pc' = pc
             /\ bidPlaced' = (bidPlaced \/ op["qbid"] \in FoundStates)   \* as the code stands: whatever its state
@@ -381,7 +392,7 @@ Finish ==
 ExitPath == XUnresStart \/ XCloseStart \/ Finish \/ \E r \in {"ok", "err"} : XUnresEnd(r) \/ XCloseEnd(r)
 
 -----------------------------------------------------------------------------
-Env == \/ \E o \in Ops, r \in {"ok", "err", "yes", "no", "notfound"} \cup FoundStates, p \in Prices \cup {0} : Complete(o, r, p)
+Env == \/ \E o \in Ops, r \in {"ok", "err", "errbid", "yes", "no", "notfound"} \cup FoundStates, p \in Prices \cup {0} \cup ErrKinds \cup NfKinds : Complete(o, r, p)
        \/ \E k \in Kinds : Deliver(k)
        \/ Shutdown
        \/ FireTimer
@@ -395,12 +406,12 @@ Spec == Init /\ [][Next]_vars
 \* fairness for the termination check: goroutines run, gates are eventually released
 FairSpec == /\ Spec
             /\ WF_vars(Internal)
-            /\ \A o \in Ops : WF_vars(\E r \in {"ok", "err", "yes", "no", "notfound"} \cup FoundStates, p \in Prices \cup {0} : Complete(o, r, p))
+            /\ \A o \in Ops : WF_vars(\E r \in {"ok", "err", "errbid", "yes", "no", "notfound"} \cup FoundStates, p \in Prices \cup {0} \cup ErrKinds \cup NfKinds : Complete(o, r, p))
 
 -----------------------------------------------------------------------------
 (* Properties *)
 
-OpStates == {"none", "launched", "run", "used", "aborted", "ok", "err", "yes", "no", "notfound"} \cup FoundStates
+OpStates == {"none", "launched", "run", "used", "aborted", "ok", "err", "errbid", "yes", "no", "notfound"} \cup FoundStates
 
 TypeOK ==
     /\ pc \in {"loop", "exit", "x_unres", "exit_u", "x_close", "exit_c", "done"}
